@@ -10,6 +10,10 @@ package main
 //	                      reads DataType, HasDefaultValue, DefaultValueInterface and NO permission
 //	priorityLookups     : the right-hand sides assigned to the variable `prioritizedPrimaryField`, in source order — the
 //	                      model uses `LookUpField("id")` then `LookUpField("ID")` (column names first, Go names second)
+//	priorityNeedsColumn : every assignment `schema.PrioritizedPrimaryField = prioritizedPrimaryField` (there is at least
+//	                      one) sits under an `if` whose condition demands `prioritizedPrimaryField.DBName != ""` — the
+//	                      repair of finding F28 (a field named ID that has no column is no key); the model's
+//	                      `prioritize` takes it as its `needCol` parameter
 //
 // Whether the code BEHAVES like the transcription is judged by the `attrs` correspondence suite on every run; the facts make
 // a change of these two places visible as a broken proof obligation as well.
@@ -30,6 +34,13 @@ func genSchemaDeclFacts(o *out, sp map[string]*ast.File) {
 	loopFound := false
 	reads := map[string]bool{}
 	var lookups []string
+	prioAssigns, prioGuarded := 0, 0
+	isPrioAssign := func(n ast.Node) bool {
+		as, ok := n.(*ast.AssignStmt)
+		return ok && len(as.Lhs) == 1 && len(as.Rhs) == 1 &&
+			strings.ReplaceAll(src(as.Lhs[0]), " ", "") == "schema.PrioritizedPrimaryField" &&
+			strings.ReplaceAll(src(as.Rhs[0]), " ", "") == "prioritizedPrimaryField"
+	}
 	for _, f := range sp {
 		for _, d := range f.Decls {
 			fd, ok := d.(*ast.FuncDecl)
@@ -37,6 +48,18 @@ func genSchemaDeclFacts(o *out, sp map[string]*ast.File) {
 				continue
 			}
 			ast.Inspect(fd.Body, func(n ast.Node) bool {
+				if isPrioAssign(n) {
+					prioAssigns++
+				}
+				if is, ok := n.(*ast.IfStmt); ok && !strings.Contains(src(is.Cond), "||") &&
+					strings.Contains(strings.ReplaceAll(src(is.Cond), " ", ""), "prioritizedPrimaryField.DBName!=\"\"") {
+					ast.Inspect(is.Body, func(m ast.Node) bool {
+						if isPrioAssign(m) {
+							prioGuarded++
+						}
+						return true
+					})
+				}
 				switch x := n.(type) {
 				case *ast.RangeStmt:
 					if strings.ReplaceAll(src(x.X), " ", "") != "schema.Fields" {
@@ -101,8 +124,12 @@ func genSchemaDeclFacts(o *out, sp map[string]*ast.File) {
 	b.WriteString("/-- the selectors of the loop variable which the condition of that `if` reads (sorted) -/\n")
 	b.WriteString("def defaultDBCondReads : List String := " + lstr(rs) + "\n\n")
 	b.WriteString("/-- the expressions assigned to the variable `prioritizedPrimaryField`, in source order -/\n")
-	b.WriteString("def priorityLookups : List String := " + lstr(lookups) + "\n")
+	b.WriteString("def priorityLookups : List String := " + lstr(lookups) + "\n\n")
+	needCol := prioAssigns > 0 && prioGuarded == prioAssigns
+	b.WriteString("/-- every `schema.PrioritizedPrimaryField = prioritizedPrimaryField` sits under an `if` that demands\n    `prioritizedPrimaryField.DBName != \"\"` (the repair of finding F28) -/\n")
+	b.WriteString("def priorityNeedsColumn : Bool := " + lbool(needCol) + "\n")
 	o.write("SchemaDeclFacts", b.String())
 	o.facts["defaultDBCondReads"] = rs
 	o.facts["priorityLookups"] = lookups
+	o.facts["priorityNeedsColumn"] = needCol
 }
